@@ -39,7 +39,7 @@ var c07Dims = []struct {
 	{"msg", []string{"null", "scalar", "deep", "none", "string-with-question-mark"}},
 	{"ctl", []string{"nil", "limit-zero", "limit-negative", "breakpoint", "nil-breakpoints-huge-limit"}},
 	{"props", []string{"nil", "nested"}},
-	{"act", []string{"throw", "spin", "retnull", "retscalar", "retarray", "emitbad-nan", "emitbad-func", "emitbad-cycle", "setbad", "nerrpartial", "nnilexec", "nnilbs", "emit-throw", "none"}},
+	{"act", []string{"throw", "spin", "retnull", "retscalar", "retarray", "emitbad-nan", "emitbad-func", "emitbad-cycle", "setbad", "setcycle", "nerrpartial", "nnilexec", "nnilbs", "emit-throw", "none"}},
 	{"guard", []string{"throw", "spin", "retnull", "retscalar", "retarray", "emitbad-nan", "emitbad-cycle", "nerrpartial", "nnilexec", "nnilbs", "none"}},
 	{"err", []string{"aeb", "aen", "aen-missing-node"}},
 }
@@ -109,6 +109,8 @@ func behaviour(name string, native bool, guard bool) (*actlang.Prog, bool) {
 		return prog(native, Op{K: actlang.EmitBad, A: "cycle"}), !native
 	case "setbad":
 		return prog(native, Op{K: actlang.SetBad, A: "nan"}), true
+	case "setcycle":
+		return prog(false, Op{K: actlang.SetCycle, A: "loop"}), !native
 	case "nerrpartial":
 		return prog(true, Op{K: actlang.Emit, V: "partial"}, Op{K: actlang.NativeErrPartial}), native
 	case "nnilexec":
@@ -409,6 +411,9 @@ func c07Run(c *vh.Ctx, cs c07Case) (clause, detail string, nontrivial bool) {
 	}
 	// surfaced? compare with the reference where it is defined
 	refOK := cs.Spec == "" || cs.Spec == "unknown-target" || cs.Spec == "empty-target"
+	if cs.Act == "setcycle" {
+		refOK = false // a self-referential binding has no canonical rendering to compare; trap-checked only
+	}
 	if cs.State == "nil-bindings" && cs.Base != "go-native" {
 		// a script handed nil bindings sees `_.bindings` undefined; what the generated programs
 		// then do is interpreter behaviour the reference does not model (still trap-checked)
